@@ -88,6 +88,8 @@ class Check:
         if inp:
             cmd += ["-in", inp]
         cmd += list(args)
+        if getattr(self, "inspect", False):
+            cmd.append("inspect=1")
         e = dict(os.environ)
         if env:
             e.update(env)
